@@ -30,9 +30,11 @@ Theorem C19_no_failure_json_partial : forall e g root,
 Proof. exact no_failure_json. Qed.
 Print Assumptions C19_no_failure_json_partial.
 
-(* pickle: the only hypothesis is that the wrapper of individually picklable parts is picklable *)
+(* pickle: the wrapper of individually picklable parts is picklable, and (excluded region 3, `mro_exceptions`)
+   no non-exception mixin stands in the MRO in front of Exception and can be rebuilt from the args - otherwise
+   find_pickleable_exception returns a mixin instance (refuted below) *)
 Theorem C19_no_failure_pickle_partial : forall g root,
-  wf g -> root < length g -> wrappable g -> exists t, roundtrip EPickle g root = OLoaded t.
+  wf g -> root < length g -> wrappable g -> mro_exceptions g -> exists t, roundtrip EPickle g root = OLoaded t.
 Proof. exact no_failure_pickle. Qed.
 Print Assumptions C19_no_failure_pickle_partial.
 
@@ -41,7 +43,7 @@ Print Assumptions C19_no_failure_pickle_partial.
    UTF-8 encoder rejects it *)
 Definition d9_arg := mkArg true true false true false true true true true.
 Definition d9_node := mkNode true RSelf true true true true false true (LArgs [AEq])
-                             [mkMro false true (LArgs [AEq])] false true [d9_arg] None None false.
+                             [mkMro false true (LArgs [AEq]) true] false true [d9_arg] None None false.
 Theorem C19_text_store_refuted :
   exists g, wf g /\ json_opaque g /\ no_shadow g /\ roundtrip EText g 0 = OStoreFail.
 Proof.
@@ -53,7 +55,7 @@ Print Assumptions C19_text_store_refuted.
 (* ... and ValueError({"\ud800": 1}) (corpus/C19/d9b_surrogate_key_json_dict.json) on the JSON-dict path *)
 Definition d9b_arg := mkArg true true false false false false true true true.
 Definition d9b_node := mkNode true RSelf false false false false false true (LArgs [AEq])
-                              [mkMro false true (LArgs [AEq])] false true [d9b_arg] None None false.
+                              [mkMro false true (LArgs [AEq]) true] false true [d9b_arg] None None false.
 Theorem C19_dict_store_refuted :
   exists g, wf g /\ json_opaque g /\ no_shadow g /\ roundtrip EDict g 0 = OStoreFail.
 Proof.
@@ -61,6 +63,19 @@ Proof.
   split; [| reflexivity]. intros n [E | []] _. subst n. discriminate.
 Qed.
 Print Assumptions C19_dict_store_refuted.
+
+(* class L(Mixin, Exception) defined inside a function, raised as L(): Python cannot pickle L by reference,
+   L() therefore fails as well, Mixin() constructs and pickles (corpus/C19/d10_pickle_mixin_not_exception.json) *)
+Definition d10_node := mkNode true RMissing false false false false false false LMismatch
+                              [mkMro false false LMismatch true; mkMro false true LMismatch false]
+                              false true [] None None false.
+Theorem C19_pickle_mixin_refuted :
+  exists g, wf g /\ wrappable g /\ roundtrip EPickle g 0 = ONotExc.
+Proof.
+  exists [d10_node]. split; [apply wfb_iff; reflexivity |]. split; [| reflexivity].
+  intros n [E | []]. subst n. reflexivity.
+Qed.
+Print Assumptions C19_pickle_mixin_refuted.
 
 (* ---- class clause, JSON: at every node of the loaded tree - importable, constructible and reconstructible
         (`faithful`) => the original class with every argument in its predicted form; otherwise a same-named
@@ -133,7 +148,7 @@ Definition ok_arg := mkArg true true true true true true true true true.
 Definition bytes_arg := mkArg false true false false false false true true true.
 Definition badrepr_arg := mkArg false true false false false false false false false.
 Definition ex_node (res : resolution) (acc : bool) (args : list arg) (c x : option nat) (s : bool) :=
-  mkNode true res acc acc acc acc false false LMismatch [mkMro false false LMismatch] false true args c x s.
+  mkNode true res acc acc acc acc false false LMismatch [mkMro false false LMismatch true] false true args c x s.
 Definition ex_graph :=
   [ ex_node RSelf true [ok_arg; bytes_arg] (Some 1) (Some 3) false;
     ex_node RMissing false [ok_arg] (Some 3) (Some 2) false;
@@ -164,7 +179,7 @@ Qed.
 (* the pickle cascade reaches each of its stand-ins *)
 Example C19_pickle_cascade_nonvacuous :
   let base := mkNode true RMissing false false false false false false LMismatch
-                     [mkMro false false LMismatch; mkMro false true (LArgs [AEq])] false true [ok_arg] None None false in
+                     [mkMro false false LMismatch true; mkMro false true (LArgs [AEq]) true] false true [ok_arg] None None false in
   let native := mkNode true RSelf true true true true false true (LArgs [AEq]) [] false true [ok_arg] None None false in
   roundtrip EPickle [base] 0 = OLoaded (LNode 0 (KBase 1) false (LArgs [AEq]) LNone LNone false) /\
   roundtrip EPickle [native] 0 = OLoaded (LNode 0 KOrig true (LArgs [AEq]) LNone LNone false).
